@@ -223,7 +223,22 @@ func (m *machine) numBuiltin(name string, args []Value, rt *wgen.Type) Value {
 				mat[r][c] = float64(a0.E[c].E[r].F32())
 			}
 		}
-		v := m.fres(det(mat), true)
+		d := det(mat)
+		// the result is a sum of signed products: when it is small against the magnitude of its
+		// terms (bounded by the product of the row sums of |a|) the float error of any evaluation
+		// order dwarfs it, and WGSL gives no accuracy bound that would make a comparison sound
+		bound := 1.0
+		for r := 0; r < n; r++ {
+			rs := 0.0
+			for c := 0; c < n; c++ {
+				rs += math.Abs(mat[r][c])
+			}
+			bound *= rs
+		}
+		if math.Abs(d) <= bound*1e-3 {
+			m.ev.Imprecise++
+		}
+		v := m.fres(d, true)
 		v.T = rt
 		return v
 	case "pack4x8unorm", "pack4x8snorm", "pack2x16unorm", "pack2x16snorm", "pack2x16float":
